@@ -371,7 +371,10 @@ def shrink(mod, case, pred, budget=60):
     if cands is None:
         return case
     improved = True
-    while improved and budget > 0:
+    # shrinking is a convenience: it stops after a time budget (a change that makes every run hang until its timeout would
+    # otherwise keep the check busy for hours) and the case found so far is reported
+    deadline = time.time() + float(os.environ.get('VERIF_SHRINK_SECONDS', '300'))
+    while improved and budget > 0 and time.time() < deadline:
         improved = False
         batch = list(cands(case))[:40]
         if not batch:
